@@ -134,3 +134,24 @@ Theorem C19_global_unaffected : forall kws g,
     o_fe_late (global_custom kws g) = line_to_slice (g_fe g))).
 Proof. exact global_unaffected. Qed.
 Print Assumptions C19_global_unaffected.
+
+(* On the WRITTEN file.  `written ls` is what the template and writeToDisk put in the backend
+   section for the emitted lines (4 blanks, the line, LF; nothing else is done to the bytes:
+   hypothesis checked byte for byte by the correspondence cases that write the files).
+   HAProxy cuts the file at LF; in a line an unquoted CR ends the statement and the first word
+   is delimited by space and tab (`haproxy_word`).  No line of the written block of an
+   emitted snippet starts with a listed blank-free keyword, neither for the filter's reading
+   of blanks nor for HAProxy's. *)
+Theorem C19_written_safe : forall kws v ls, custom_config kws v = Some ls ->
+  forall line, In line (split_nl (written ls)) ->
+  forall k, In k kws -> k <> EmptyString -> no_space k = true ->
+    first_token line <> k /\ haproxy_word line <> k.
+Proof. exact written_safe. Qed.
+Print Assumptions C19_written_safe.
+
+(* the first word HAProxy reads on a line, when blank-free and not empty, is the first token
+   the filter looked at: HAProxy's notion of a first word is covered by the filter's *)
+Theorem C19_haproxy_word_covered : forall l k,
+  haproxy_word l = k -> k <> EmptyString -> no_space k = true -> first_token l = k.
+Proof. exact haproxy_word_first_token. Qed.
+Print Assumptions C19_haproxy_word_covered.
